@@ -5,6 +5,7 @@ package model
 import (
 	"bytes"
 
+	"github.com/richardmorrey/flap/pkg/db"
 	"github.com/richardmorrey/flap/pkg/flap"
 )
 
@@ -111,4 +112,83 @@ func VerifCountryRoundTrip(c Country) (Country, []byte, error) {
 	var out Country
 	err := out.From(&b)
 	return out, raw, err
+}
+
+// VerifGobRoundTrip builds a pseudo-random value of one of the gob-encoded records
+// ("summaryStats", "botStats", "countryWeights", "Country") from the seed, encodes it twice and
+// decodes it into a fresh value.  It reports whether the two encodings are identical and whether
+// re-encoding the decoded value gives the same bytes again (gob omits empty lists, so an empty list
+// comes back absent; re-encoding is insensitive to that).
+func VerifGobRoundTrip(kind string, seed uint64) (deterministic bool, roundtrip bool, size int, err error) {
+	next := func() uint64 {
+		seed = seed*6364136223846793005 + 1442695040888963407
+		return seed >> 11
+	}
+	f := func() float64 {
+		switch next() % 6 {
+		case 0:
+			return 0
+		case 1:
+			return -float64(next()%1000000) / 7
+		case 2:
+			return 1e300
+		}
+		return float64(next()%100000000) / 13
+	}
+	n := int(next() % 5)
+	if next()%4 == 0 {
+		n = 0
+	}
+	var v, fresh db.Serialize
+	switch kind {
+	case "summaryStats":
+		s := &summaryStats{}
+		for i := 0; i < n; i++ {
+			s.Rows = append(s.Rows, summaryStatsRow{f(), f(), f(), f(), f(), f(), flap.EpochTime(next()), int(next() % 1000)})
+		}
+		v, fresh = s, &summaryStats{}
+	case "botStats":
+		s := &botStats{}
+		for i := 0; i < n; i++ {
+			s.Rows = append(s.Rows, botStatsRow{flap.Kilometres(f()), next(), next(), next(), next(), flap.EpochTime(next()), int(next() % 1000)})
+		}
+		v, fresh = s, &botStats{}
+	case "countryWeights":
+		s := newCountryWeights()
+		for i := 0; i < n; i++ {
+			s.Countries = append(s.Countries, string([]byte{byte('A' + next()%26), byte(next() % 256)}))
+			s.add(weight(next() % 100000))
+		}
+		v, fresh = s, &countryWeights{}
+	default:
+		s := newCountry()
+		for i := 0; i < n; i++ {
+			a := &Airport{Code: flap.NewICAOCode(string([]byte{byte('A' + next()%26), byte(next() % 256), 'X', 0}))}
+			for j := 0; j < int(next()%4); j++ {
+				a.Routes = append(a.Routes, Route{From: a.Code, To: flap.NewICAOCode("ZZZZ")})
+				a.add(weight(next() % 1000))
+			}
+			s.Airports = append(s.Airports, a)
+			s.add(weight(next() % 100000))
+		}
+		v, fresh = s, &Country{}
+	}
+	var b1, b2, b3 bytes.Buffer
+	if err = v.To(&b1); err != nil {
+		return
+	}
+	if err = v.To(&b2); err != nil {
+		return
+	}
+	raw := append([]byte(nil), b1.Bytes()...)
+	deterministic = bytes.Equal(raw, b2.Bytes())
+	if err = fresh.From(&b1); err != nil {
+		return
+	}
+	if err = fresh.To(&b3); err != nil {
+		return
+	}
+	roundtrip = bytes.Equal(raw, b3.Bytes())
+	size = len(raw)
+	return
 }
